@@ -322,6 +322,8 @@ def _transform(dst, how):
                 new = join_assignments(src)
             elif how == 'renamepriv':
                 new = rename_private_defs(src, priv)
+            elif how == 'tails':
+                new = extract_tails(src)
             elif how == 'shift':
                 # push every line down (line numbers change, nothing else)
                 new = '# moved\n' * 7 + src if not src.startswith('#!') else \
@@ -375,6 +377,132 @@ def rename_private_defs(src, names):
             if n.asname in names:
                 n.asname += '_rn7'
     return ast.unparse(tree) + '\n'
+
+
+def extract_tails(src):
+    """Every function whose body has at least four statements hands the second
+    half of its body to a new private helper and returns what it returns
+    (`return _f_tail(a, b)` / `return self._f_tail(a, b)`), the helper's
+    parameters being the locals of the first half that the second half reads.
+    The extraction a maintainer does when a function has grown too long."""
+    import ast
+    tree = ast.parse(src)
+
+    def bound_names(stmts):
+        """names bound in this scope by the statements (nested scopes only
+        contribute their own name)"""
+        out = set()
+        work = list(stmts)
+        while work:
+            n = work.pop()
+            if isinstance(n, (ast.FunctionDef, ast.AsyncFunctionDef,
+                              ast.ClassDef)):
+                out.add(n.name)
+                continue
+            if isinstance(n, (ast.Lambda, ast.ListComp, ast.SetComp,
+                              ast.DictComp, ast.GeneratorExp)):
+                continue
+            if isinstance(n, ast.Name) and isinstance(
+                    n.ctx, (ast.Store, ast.Del)):
+                out.add(n.id)
+            elif isinstance(n, ast.alias):
+                out.add((n.asname or n.name).split('.')[0])
+            elif isinstance(n, ast.ExceptHandler) and n.name:
+                out.add(n.name)
+            work.extend(ast.iter_child_nodes(n))
+        return out
+
+    def ok_tail(fn, stmts):
+        for st in stmts:
+            for n in ast.walk(st):
+                if isinstance(n, (ast.Yield, ast.YieldFrom, ast.Await,
+                                  ast.Global, ast.Nonlocal)):
+                    return False
+                if isinstance(n, ast.Call) and isinstance(
+                        n.func, ast.Name) and n.func.id in (
+                        'super', 'locals', 'vars', 'eval', 'exec'):
+                    return False
+                if isinstance(n, ast.Name) and n.id == '__class__':
+                    return False
+        return True
+
+    def split(fn, in_class):
+        body = fn.body
+        doc = 1 if (body and isinstance(body[0], ast.Expr) and isinstance(
+            body[0].value, ast.Constant) and isinstance(
+            body[0].value.value, str)) else 0
+        real = body[doc:]
+        if len(real) < 4 or isinstance(fn, ast.AsyncFunctionDef):
+            return None
+        if any(isinstance(n, (ast.Yield, ast.YieldFrom)) for n in ast.walk(fn)):
+            return None
+        k = len(real) // 2
+        head, tail = real[:k], real[k:]
+        if not ok_tail(fn, tail):
+            return None
+        a = fn.args
+        params = [x.arg for x in a.posonlyargs + a.args + a.kwonlyargs]
+        if a.vararg:
+            params.append(a.vararg.arg)
+        if a.kwarg:
+            params.append(a.kwarg.arg)
+        is_static = any(isinstance(d, ast.Name) and d.id in (
+            'staticmethod', 'classmethod') for d in fn.decorator_list)
+        known = set(params) | bound_names(head)
+        # names the head binds on every path: top-level simple statements
+        sure = set(params)
+        for st in head:
+            if isinstance(st, (ast.Assign, ast.AugAssign, ast.AnnAssign,
+                               ast.Import, ast.ImportFrom, ast.FunctionDef,
+                               ast.ClassDef)):
+                sure |= bound_names([st])
+            elif isinstance(st, ast.With):
+                for it in st.items:
+                    if it.optional_vars is not None:
+                        sure |= bound_names([it.optional_vars])
+        used = []
+        for st in tail:
+            for n in ast.walk(st):
+                if isinstance(n, ast.Name) and n.id in known and \
+                        n.id not in used:
+                    used.append(n.id)
+        if any(u not in sure for u in used):
+            return None   # a name the head binds only on some paths
+        selfn = params[0] if (in_class and not is_static and params) else None
+        if in_class and (is_static or not params):
+            return None   # keep it simple: plain methods only
+        args = [u for u in used if u != selfn]
+        name = '_t7_%s' % fn.name
+        hp = ([ast.arg(arg=selfn)] if selfn else []) + [
+            ast.arg(arg=u) for u in args]
+        helper = ast.FunctionDef(
+            name=name, args=ast.arguments(
+                posonlyargs=[], args=hp, vararg=None, kwonlyargs=[],
+                kw_defaults=[], kwarg=None, defaults=[]),
+            body=tail, decorator_list=[], returns=None, type_comment=None)
+        func = ast.Attribute(value=ast.Name(id=selfn, ctx=ast.Load()),
+                             attr=name, ctx=ast.Load()) if selfn else \
+            ast.Name(id=name, ctx=ast.Load())
+        call = ast.Return(value=ast.Call(
+            func=func, args=[ast.Name(id=u, ctx=ast.Load()) for u in args],
+            keywords=[]))
+        fn.body = body[:doc] + head + [call]
+        return helper
+
+    def do(stmts, in_class):
+        out = []
+        for st in stmts:
+            if isinstance(st, ast.FunctionDef):
+                h = split(st, in_class)
+                if h is not None:
+                    out.append(h)
+            elif isinstance(st, ast.ClassDef) and not in_class:
+                st.body = do(st.body, True)
+            out.append(st)
+        return out
+
+    tree.body = do(tree.body, False)
+    return ast.unparse(ast.fix_missing_locations(tree)) + '\n'
 
 
 def rename_import_aliases(src):
@@ -501,6 +629,12 @@ def run_for_property(prop, repo, seed=0, jobs=None):
                          'property': prop, 'kind': 'benign', 'edits': [],
                          'transform': how, 'expect': None, 'clears': None,
                          'may_error': False})
+    # the second half of every longer function extracted into a new private
+    # helper: no check may report a violation ("cannot decide" is tolerated)
+    variants.append({'id': '%s-benign-tails-all' % prop.lower(),
+                     'property': prop, 'kind': 'benign', 'edits': [],
+                     'transform': 'tails', 'expect': None, 'clears': None,
+                     'may_error': True})
     # seeded changes (from independent sub-agents) this property's check catches
     sdir = os.path.join(report.VERIF, 'seeded')
     if os.path.isdir(sdir):
